@@ -71,6 +71,10 @@ BODIES = [
     ('gotwant_fail', ['>>> T.append("{id}")', '>>> print("a")', 'b']),
     # a compound statement that echoes a value (the interactive interpreter's way: the value goes through
     # sys.displayhook) and a doctest that looks at the interpreter's "last value" name
+    # an annotated assignment records its annotation in the __annotations__ found in the doctest's globals
+    ('annotated_assign', ['>>> T.append("{id}")', '>>> note_{id}: str = "q"', '>>> print(sorted(__annotations__))',
+                          "['MODANNOT', 'note_{id}']"]),
+    ('reads_annotations', ['>>> T.append("{id}")', '>>> print(sorted(__annotations__))', "['MODANNOT']"]),
     ('echo_value', ['>>> T.append("{id}")', '>>> if 1:', '...     6 * 7', '42']),
     ('reads_last_value', ['>>> T.append("{id}")', '>>> try:', '...     print("stale", _)', '... except NameError:',
                           '...     print("fresh")', 'fresh']),
@@ -95,7 +99,7 @@ SWITCHED = ('switch', 'switch_bind', 'switch_requires', 'switch_requires_inline'
 
 
 def required_cells(tier):
-    return (['kind:' + k for k in KINDS] + ['history:same-object-twice', 'history:switch-AB', 'history:switch-BA', 'history:missing-submodule-then-package', 'history:echo-then-last-value',
+    return (['kind:' + k for k in KINDS] + ['history:same-object-twice', 'history:switch-AB', 'history:switch-BA', 'history:missing-submodule-then-package', 'history:echo-then-last-value', 'history:annotate-then-read',
             'history:ordered-pair', 'history:random', 'history:fresh-object', 'module-dict-checks', 'baseline-children',
             'session-options:none', 'session-options:given', 'mode:native', 'mode:pytest'] +
             ['history:' + h for h, _ in PATCH_HISTORIES])
@@ -107,7 +111,7 @@ REQ_PACKAGES = ['json', 'email', 'xml', 'logging', 'http', 'urllib', 'concurrent
 
 def gen(rng, uid):
     n = rng.randint(3, 6)
-    src = ['T = []', 'MODGLOBAL = "orig"', '']
+    src = ['T = []', 'MODGLOBAL = "orig"', 'MODANNOT: int = 0', '']
     ids = []
     kinds = [rng.choice(BODIES) for _ in range(n)]
     if not any(k in SWITCHED for k, _ in kinds) and rng.random() < 0.7:
@@ -117,6 +121,8 @@ def gen(rng, uid):
         kinds += [b for b in BODIES if b[0] == 'req_missing_sub'] + [b for b in BODIES if b[0] == 'req_existing_pkg']
     elif rng.random() < 0.3:
         kinds += [b for b in BODIES if b[0] == 'echo_value'] + [b for b in BODIES if b[0] == 'reads_last_value']
+    elif rng.random() < 0.3:
+        kinds += [b for b in BODIES if b[0] == 'annotated_assign'] + [b for b in BODIES if b[0] == 'reads_annotations']
     # (a package this worker process has not asked about yet, as long as the list lasts)
     try:
         pkg = REQ_PACKAGES[(int(uid.split('x')[1]) // 16) % len(REQ_PACKAGES)]
@@ -271,6 +277,10 @@ def check_module(ctx, idx, seed):
             if kind_of[n] in SWITCHED:
                 histories.append(('switch-AB', [(n, 'A', False), (n, 'B', False)]))
                 histories.append(('switch-BA', [(n, 'B', False), (n, 'A', False), (n, 'B', False)]))
+        ann = [n for n in names if kind_of[n] == 'annotated_assign']
+        rann = [n for n in names if kind_of[n] == 'reads_annotations']
+        if ann and rann:
+            histories.append(('annotate-then-read', [(ann[0], 'B', False), (rann[0], 'B', False), (ann[0], 'B', False)]))
         echo = [n for n in names if kind_of[n] == 'echo_value']
         reads = [n for n in names if kind_of[n] == 'reads_last_value']
         if echo and reads:
